@@ -50,6 +50,8 @@ class Row:
         # exception-generating instructions (SVC, SMC): exc(cpu, f) -> [(condition, kind)], the first true condition names what
         # the instruction does when its condition passes: kind in 'svc' | 'smc' | 'hyptrap' | 'undef' | 'unpred'
         self.exc = None
+        # hint rows: when the condition passes the implementation ends in a mock hook (NotImplementedError) - with the state untouched
+        self.mock = False
         self.width = WIDTH[iset]
         self.mask = 0
         self.value = 0
